@@ -19,8 +19,24 @@ mod parser;
 
 use self::parser::{
 	Parser, YAML_DOCUMENT_END_EVENT, YAML_DOCUMENT_START_EVENT, YAML_MAPPING_START_EVENT,
-	YAML_SCALAR_EVENT, YAML_SEQUENCE_START_EVENT, YAML_STREAM_END_EVENT,
+	YAML_SCALAR_EVENT, YAML_SEQUENCE_START_EVENT, YAML_STREAM_END_EVENT, YAML_STREAM_START_EVENT,
 };
+
+/// Returns true if the UTF-8 encoded YAML stream contains no documents at all,
+/// for example because it is empty or only consists of comments.
+pub(super) fn stream_is_empty<R>(reader: R) -> bool
+where
+	R: Read,
+{
+	let mut parser = Parser::new(reader);
+	loop {
+		match parser.next_event().map(|event| event.event_type()) {
+			Ok(YAML_STREAM_START_EVENT) => {}
+			Ok(YAML_STREAM_END_EVENT) => return true,
+			_ => return false,
+		}
+	}
+}
 
 /// An iterator over individual raw documents in a UTF-8-encoded YAML stream.
 pub(super) struct Chunker<R>
